@@ -8,12 +8,12 @@ HERE = os.path.dirname(os.path.dirname(os.path.abspath(__file__)))
 sys.path.insert(0, HERE)
 
 TECHNIQUE = {
-    "C01": "property-based round-trip testing (Hypothesis) against a description-derived snapshot and a reference JSON document model",
-    "C02": "property-based round-trip testing (Hypothesis) against description-derived per-cell multisets and a reference JSON document model",
+    "C01": "property-based round-trip testing (Hypothesis) against a description-derived snapshot and a reference JSON document model; written and loaded objects are revised in place and written again; readers that refused another document first",
+    "C02": "property-based round-trip testing (Hypothesis) against description-derived per-cell multisets and a reference JSON document model; change-and-write-again; border-of-domain records must be refused or come back unchanged",
     "C03": "property-based testing of generated add-call histories; re-read mapping compared with a hand-written reference model",
     "C04": "property-based round-trip testing (Hypothesis); independent re-reading with stdlib RawConfigParser against a reference INI model",
     "C05": "property-based testing over generated down-converted documents (per format and version) plus all shipped fixtures; description-derived upgrade oracle + idempotence",
-    "C06": "property-based single-corruption testing over a hand-written rule table (object level) with converse enumeration sweep",
+    "C06": "property-based single-corruption testing over a hand-written rule table (object level) with converse enumeration sweep; table sweep repeated in fresh interpreters after generated caller-side validate() calls",
     "C07": "property-based single-corruption testing of documents over a hand-written rule table plus metamorphic load=>dump=>reload fuzzing (structured mutation; atheris in thorough tier)",
     "C08": "metamorphic property-based testing: construction-order permutations, repeated dumps, and child interpreters with different PYTHONHASHSEED values must give identical bytes",
     "C09": "model-based testing of generated operation sequences against a dict model, checked after every step",
@@ -24,10 +24,10 @@ TECHNIQUE = {
     "C14": "bounded-exhaustive enumeration against regex-free reference predicates plus property-based round-trip and refusal-agreement testing",
     "C15": "property-based encode/decode round-trip testing plus exhaustive cross product of the small enumerations and generated legacy documents",
     "C16": "differential property-based testing against one-shot hashlib digests, hand-written [checksums] sections, and a dict model for add_checksum sequences",
-    "C17": "property-based testing with an independent INI reader (reference [general] model, intra-file agreement) plus metamorphic compatibility-sections-only reload",
-    "C18": "fault enumeration: every validator of every nested object is made to fail in turn (injected inside the harness) plus generated real invalid values; file bytes compared before/after",
-    "C19": "generated pump-family inputs for every regular expression observed at the re boundary and for every public parser/validator; CPU-time cost model (bound for short inputs, growth ratio for long ones)",
-    "C20": "property-based testing over generated directory layouts in temp dirs; oracle = direct load of the file the description placed in the resolved location",
+    "C17": "property-based testing with an independent INI reader (reference [general] model, intra-file agreement) plus metamorphic compatibility-sections-only reload; changed-and-rewritten trees; id-keyed top-level variants",
+    "C18": "fault enumeration: every validator of every nested object is made to fail in turn (injected inside the harness) over six destination states, plus planted real invalid / unwritable / unencodable values and a child process under an ASCII locale; file bytes compared before/after",
+    "C19": "generated pump-family inputs for every regular expression observed at the re boundary and for every public parser/validator, number-shaped text in converted fields, and documents whose structure is pumped; CPU-time cost model (bound for short inputs and small documents, growth ratio for long ones)",
+    "C20": "property-based testing over generated directory layouts in temp dirs (rebuilt under the same path, opened by several objects in different access orders); oracle = direct load of the file the description placed in the resolved location",
 }
 LEVEL_TEXT = {
     "exploration": "generated-input search: every generated case is decided by an oracle that does not share code with productmd (description, reference model, independent reader or metamorphic relation); shrunk failures become replay files. It samples the quantifier's domain; it does not establish absence of violations outside the explored cases.",
